@@ -95,9 +95,18 @@ fn expand(mac: &str, attr: proc_macro2::TokenStream, item: proc_macro2::TokenStr
 
 // ------------------------------------------------------------------ independent stripper (C13)
 
+/// The framework's own attributes, as documented: `sv::<one of these ten names>`.  Any other attribute,
+/// including other paths starting with `sv`, is foreign and has to be passed through.
+const FRAMEWORK_ATTRS: [&str; 10] = [
+    "custom", "error", "messages", "msg", "override_entry_point", "attr", "msg_attr", "payload", "data", "features",
+];
+
 fn is_sv_attr(a: &syn::Attribute) -> bool {
     let p = a.path();
-    p.segments.len() == 2 && p.segments[0].ident == "sv"
+    p.segments.len() == 2
+        && p.segments[0].ident == "sv"
+        && FRAMEWORK_ATTRS.iter().any(|n| p.segments[1].ident == n)
+        && matches!(p.segments[1].arguments, syn::PathArguments::None)
 }
 
 fn has_sv_msg(attrs: &[syn::Attribute]) -> bool {
